@@ -79,23 +79,19 @@ theorem available_kept {arg : CertArg} {md : List MdKey} (h : certAvailable arg 
 
 /-! ### inversion of the issuing side -/
 
-theorem encryptStep_inv {f : Form} {c : Choice} {ko : Option Key} (h : encryptStep f c = .ok ko) :
-    (c = .nothing ∧ ko = none) ∨ (∃ k, c = .key k ∧ ko = some k ∧ f = .str) := by
+theorem encryptStep_inv {c : Choice} {ko : Option Key} (h : encryptStep c = .ok ko) :
+    (c = .nothing ∧ ko = none) ∨ (∃ k, c = .key k ∧ ko = some k) := by
   unfold encryptStep at h
   cases c with
   | nothing => cases h; exact Or.inl ⟨rfl, rfl⟩
   | raised => cases h
-  | key k =>
-    right
-    cases f with
-    | obj => simp at h
-    | str => simp at h; exact ⟨k, rfl, h.symm, rfl⟩
+  | key k => cases h; exact Or.inr ⟨k, rfl, rfl⟩
 
 theorem partB_inv {a : RArgs} {opsB : List Op} {advB : Option AdvBox} (h : partB a = .ok (opsB, advB)) :
     (a.advice = none ∧ opsB = [] ∧ advB = none) ∨
     (∃ adv, a.advice = some adv ∧ adviceKept a = false ∧ opsB = [] ∧ advB = some (.clear adv)) ∨
     (∃ adv ko, a.advice = some adv ∧ adviceKept a = true ∧
-        encryptStep (formB a) (chooseCert a.certAdvice a.md) = .ok ko ∧
+        encryptStep (chooseCert a.certAdvice a.md) = .ok ko ∧
         opsB = optOp (signsAdvice a) .signAdvice ++ keyOp .encAdvice ko ∧
         advB = some (sealAdv ko (advAfterB a adv))) := by
   unfold partB at h
@@ -126,7 +122,7 @@ theorem response_inv {a : RArgs} {iss : Issued} (h : response a = .ok iss) :
       iss.ops = optOp (a.sign && a.toSign) .signAssertion ++ optOp a.sign .signResponse ∧
       iss.wire = wireOf a.sign (.clear { sig := (if a.sign && a.toSign then some (a.advice.map .clear) else none), advice := a.advice.map .clear })) ∨
     (earlyReturn a = false ∧ assertionKept a = true ∧ ∃ opsB advB ko, partB a = .ok (opsB, advB) ∧
-      encryptStep (formC a) (chooseCert a.certAssertion a.md) = .ok ko ∧
+      encryptStep (chooseCert a.certAssertion a.md) = .ok ko ∧
       iss.ops = opsB ++ optOp a.signAssertion .signAssertion ++ keyOp .encAssertion ko ++ optOp a.sign .signResponse ∧
       iss.wire = wireOf a.sign (sealBody ko { sig := if a.signAssertion then some advB else none, advice := advB })) ∨
     (earlyReturn a = false ∧ assertionKept a = false ∧ adviceKept a = true ∧ a.advice.isSome = true ∧
@@ -205,18 +201,29 @@ theorem effAdv_facts {c : Call} (h : effAdv c = true) :
     have := available_kept ha
     simpa [Call.rargs] using this
 
-/-- the early return is taken exactly when the assertion is to be signed, not encrypted, and the Response
-    is not signed -/
+/-- the early return is taken exactly when the assertion is to be signed, not encrypted, the Response is
+    not signed, and no advice is left to encrypt -/
 theorem earlyReturn_iff (c : Call) :
-    earlyReturn c.rargs = (c.opts.signAssertion && !c.opts.encryptAssertion && !c.opts.signResponse) := by
-  simp only [earlyReturn, Call.rargs]
+    earlyReturn c.rargs = (c.opts.signAssertion && !c.opts.encryptAssertion && !c.opts.signResponse &&
+      !(adviceKept c.rargs && c.rargs.advice.isSome)) := by
+  simp only [earlyReturn]
+  have h1 : c.rargs.toSign = (!c.opts.encryptAssertion && c.opts.signAssertion) := rfl
+  have h2 : c.rargs.sign = c.opts.signResponse := rfl
+  have h3 : c.rargs.encryptAssertion = c.opts.encryptAssertion := rfl
+  rw [h1, h2, h3]
   cases c.opts.signAssertion <;> cases c.opts.encryptAssertion <;> cases c.opts.signResponse <;> rfl
 
-/-- Unless `_response` returns early, an advice assertion whose encryption is in effect leaves sealed
+/-- advice encryption in effect: `_response` does not return early -/
+theorem effAdv_not_early {c : Call} (heff : effAdv c = true) : earlyReturn c.rargs = false := by
+  obtain ⟨⟨adv, hadv⟩, _, hkept, _⟩ := effAdv_facts heff
+  simp [earlyReturn, hkept, hadv]
+
+/-- An advice assertion whose encryption is in effect leaves sealed
     for one of the recipient's designated certificates — whatever happens to the assertion around it. -/
-theorem advice_sealed {c : Call} {iss : Issued} (heff : effAdv c = true) (he : earlyReturn c.rargs = false)
+theorem advice_sealed {c : Call} {iss : Issued} (heff : effAdv c = true)
     (h : createAuthnResponse c = .ok iss) :
     ∃ k adv, iss.wire.body.outer.advice = some (.sealed k adv true) ∧ chooseCert c.certAdvice c.md = .key k := by
+  have he := effAdv_not_early heff
   obtain ⟨⟨adv, hadv⟩, _, hkept, k, hc⟩ := effAdv_facts heff
   have hB : ∀ {opsB advB}, partB c.rargs = .ok (opsB, advB) → advB = some (.sealed k (advAfterB c.rargs adv) true) := by
     intro opsB advB hp
@@ -224,7 +231,7 @@ theorem advice_sealed {c : Call} {iss : Issued} (heff : effAdv c = true) (he : e
     · rw [hadv] at hn; cases hn
     · rw [hkept] at hk'; cases hk'
     · rw [hadv] at ha'; cases ha'
-      rcases encryptStep_inv hs with ⟨hn, _⟩ | ⟨k', hk', hko, _⟩
+      rcases encryptStep_inv hs with ⟨hn, _⟩ | ⟨k', hk', hko⟩
       · rw [hc] at hn; cases hn
       · rw [hc] at hk'; cases hk'
         subst hko
@@ -280,7 +287,7 @@ theorem partB_sealed {a : RArgs} {opsB : List Op} {advB : Option AdvBox} {k : Ke
   · rw [hn] at hs; cases hs
   · rw [hb] at hs; cases hs
   · rw [hb] at hs
-    rcases encryptStep_inv hst with ⟨_, hko⟩ | ⟨k', hk', hko, _⟩
+    rcases encryptStep_inv hst with ⟨_, hko⟩ | ⟨k', hk', hko⟩
     · subst hko; simp [sealAdv] at hs
     · subst hko
       simp only [sealAdv, Option.some.injEq, AdvBox.sealed.injEq] at hs
@@ -302,10 +309,10 @@ theorem AdvOk.schemaOk {c : Call} {advB : Option AdvBox} {sig : Option (Option A
   · subst h; simpa [Outer.schemaOk, AdvBox.schemaOk] using hv
   · subst h; rfl
 
-/-- What a well-posed call outside the early-return class issues: the assertion sealed for the recipient
+/-- What a well-posed call issues: the assertion sealed for the recipient
     (advice inside absent, clear-by-request or sealed), or — when only advice encryption was requested —
     the assertion in clear around a sealed advice; signatures as requested. -/
-theorem wellPosed_shape {c : Call} {iss : Issued} (hw : wellPosed c = true) (hcls : earlyReturnClass c = false)
+theorem wellPosed_shape {c : Call} {iss : Issued} (hw : wellPosed c = true)
     (h : createAuthnResponse c = .ok iss) :
     ∃ advB, AdvOk c advB ∧
       ((∃ k, k ∈ candidates c.certAssertion c.md ∧ requestedA c = true ∧
@@ -317,20 +324,9 @@ theorem wellPosed_shape {c : Call} {iss : Issued} (hw : wellPosed c = true) (hcl
   obtain ⟨hsome, hA, hAdv⟩ := wellPosed_facts hw
   -- the early return is not taken
   have he : earlyReturn c.rargs = false := by
-    cases hee : earlyReturn c.rargs with
-    | false => rfl
-    | true =>
-      exfalso
-      rw [earlyReturn_iff] at hee
-      simp only [Bool.and_eq_true, Bool.not_eq_true'] at hee
-      obtain ⟨⟨hsa, hea⟩, hsr⟩ := hee
-      have hra : requestedA c = false := hea
-      rcases hsome with h1 | h1
-      · rw [hra] at h1; cases h1
-      · have := hAdv h1
-        unfold earlyReturnClass at hcls
-        simp only [this, hsa, hea, hsr] at hcls
-        cases hcls
+    rcases hsome with h1 | h1
+    · exact (effA_facts (hA h1)).2.1
+    · exact effAdv_not_early (hAdv h1)
   -- the advice as part B leaves it
   have hB : ∀ {opsB advB}, partB c.rargs = .ok (opsB, advB) → AdvOk c advB := by
     intro opsB advB hp
@@ -342,7 +338,7 @@ theorem wellPosed_shape {c : Call} {iss : Issued} (hw : wellPosed c = true) (hcl
       rcases partB_inv hp with ⟨hn, _⟩ | ⟨adv', _, hk', _⟩ | ⟨adv', ko, _, _, hs, _, hb⟩
       · rw [hadv] at hn; cases hn
       · rw [hkept] at hk'; cases hk'
-      · rcases encryptStep_inv hs with ⟨hn, _⟩ | ⟨k', hk', hko, _⟩
+      · rcases encryptStep_inv hs with ⟨hn, _⟩ | ⟨k', hk', hko⟩
         · rw [hc] at hn; cases hn
         · subst hko
           exact ⟨k', _, hb, chooseCert_key_mem hk'⟩
@@ -379,7 +375,7 @@ theorem wellPosed_shape {c : Call} {iss : Issued} (hw : wellPosed c = true) (hcl
   · have hreq := requestedA_of_kept hkA
     obtain ⟨_, _, _, k, hc⟩ := effA_facts (hA hreq)
     refine ⟨advB, hB hp, Or.inl ⟨k, chooseCert_key_mem hc, hreq, ?_⟩⟩
-    rcases encryptStep_inv hst with ⟨hn, _⟩ | ⟨k', hk', hko, _⟩
+    rcases encryptStep_inv hst with ⟨hn, _⟩ | ⟨k', hk', hko⟩
     · rw [hc] at hn; cases hn
     · rw [hc] at hk'; cases hk'
       subst hko
@@ -462,7 +458,7 @@ theorem outerSig_ok {c : Call} {advB : Option AdvBox} (sa : Bool) (h : AdvOk c a
 
 /-- what the recipient sees of a well-posed, undamaged Response whose keys it holds -/
 theorem receive_wellPosed {i : Input} {iss : Issued} (hw : wellPosed i.call = true)
-    (hcls : earlyReturnClass i.call = false) (h : createAuthnResponse i.call = .ok iss) (hnt : i.tamper = false)
+    (h : createAuthnResponse i.call = .ok iss) (hnt : i.tamper = false)
     (hkA : ∀ k o b, iss.wire.body = .sealed k o b → i.rc.holds k = true)
     (hkAdv : ∀ k adv b, iss.wire.body.outer.advice = some (.sealed k adv b) → i.rc.holds k = true) :
     let s := receive i.rc (i.sent iss.wire)
@@ -471,7 +467,7 @@ theorem receive_wellPosed {i : Input} {iss : Issued} (hw : wellPosed i.call = tr
     s.decryptable = true ∧ (i.hasAdvice = true → s.adviceVisible = true) := by
   have hsent : i.sent iss.wire = iss.wire := by simp [Input.sent, hnt]
   rw [hsent]
-  obtain ⟨advB, hok, hshape⟩ := wellPosed_shape hw hcls h
+  obtain ⟨advB, hok, hshape⟩ := wellPosed_shape hw h
   rcases hshape with ⟨k, _, _, hwire⟩ | ⟨_, _, hwire⟩
   · have hk := hkA k _ _ (by rw [hwire]; rfl)
     have hadvk : ∀ k' adv b, advB = some (.sealed k' adv b) → i.rc.holds k' = true := by
@@ -517,9 +513,9 @@ def asrtOf (i : Input) : Sp.Assertion :=
 
 theorem plainVariant_eq (i : Input) : plainVariant i = Sp.withA (envOf i) (Sp.asPlain (asrtOf i)) := rfl
 
-theorem shape_hasCiphertext {c : Call} {iss : Issued} (hw : wellPosed c = true) (hcls : earlyReturnClass c = false)
+theorem shape_hasCiphertext {c : Call} {iss : Issued} (hw : wellPosed c = true)
     (h : createAuthnResponse c = .ok iss) : iss.wire.hasCiphertext = true := by
-  obtain ⟨advB, _, hshape⟩ := wellPosed_shape hw hcls h
+  obtain ⟨advB, _, hshape⟩ := wellPosed_shape hw h
   rcases hshape with ⟨k, _, _, hwire⟩ | ⟨_, ⟨k, adv, hb⟩, hwire⟩
   · rw [hwire]; rfl
   · rw [hwire]; subst hb; rfl
